@@ -39,8 +39,16 @@ Theorem C04_interp_at_knots : forall f0 f1 d0 d1 h an,
   (hermite f0 f1 d0 d1 h 0 = f0 /\ hermite f0 f1 d0 d1 h 1 = f1) /\ amps_interp an 1 = an.
 Proof. intros. exact (conj (hermite_at_knots f0 f1 d0 d1 h) (amps_at_unit_flux an)). Qed.
 
+(* the same fact in Fourier space, on the generated Fourier kernel: the transform of the component drawn in real space is
+   the Fourier renderer's component times exp(-2 pi^2 s^2 |f|^2), the transfer function of a circular Gaussian PSF of width s *)
+Theorem C04_hybrid_component_is_fourier_component_times_gaussian_psf : forall FX FY a sigma s xc yc t e, 0 < sigma ->
+  gauss_fourier_logamp FX FY a (sigma_obs sigma s) xc yc t (q_obs e sigma s)
+  = gauss_fourier_logamp FX FY a sigma xc yc t (1 - e) + - (2 * PI * PI * (s * s)) * (FX * FX + FY * FY).
+Proof. exact hybrid_component_is_fourier_times_gaussian_psf. Qed.
+
 Print Assumptions C04_hybrid_broadening_is_covariance_sum.
 Print Assumptions C04_hybrid_component_covariance.
 Print Assumptions C04_hybrid_partition.
 Print Assumptions C04_decomposition_scale_covariant.
 Print Assumptions C04_interp_at_knots.
+Print Assumptions C04_hybrid_component_is_fourier_component_times_gaussian_psf.
